@@ -70,3 +70,42 @@ pub fn c05_pop_and_signature_are_separated(sk: &SecretKey)
         _ => {}
     }
 }
+
+/// algebra: v + (u + h1*y)*X == 0 and v + (u + h2*y)*X == 0, X != 0, y != 0  ==>  h1 == h2
+pub proof fn lemma_pok_two_tags(vv: int, u: int, h1: int, h2: int, y: int, x: int)
+    requires inr(vv), inr(u), inr(h1), inr(h2), inr(y), inr(x), x != 0, y != 0,
+        fadd(vv, fmul(fadd(u, fmul(h1, y)), x)) == 0,
+        fadd(vv, fmul(fadd(u, fmul(h2, y)), x)) == 0,
+    ensures h1 == h2
+{
+    let a1 = fadd(u, fmul(h1, y));
+    let a2 = fadd(u, fmul(h2, y));
+    lemma_range_add(u, fmul(h1, y)); lemma_range_add(u, fmul(h2, y));
+    lemma_range_mul(a1, x); lemma_range_mul(a2, x); lemma_range_mul(h1, y); lemma_range_mul(h2, y);
+    lemma_add_comm(vv, fmul(a1, x)); lemma_add_comm(vv, fmul(a2, x));
+    lemma_add_cancel(fmul(a1, x), fmul(a2, x), vv);
+    lemma_mul_cancel(a1, a2, x);
+    lemma_add_comm(u, fmul(h1, y)); lemma_add_comm(u, fmul(h2, y));
+    lemma_add_cancel(fmul(h1, y), fmul(h2, y), u);
+    lemma_mul_cancel(h1, h2, y);
+}
+
+/// a proof of knowledge bound to one scheme is rejected under another scheme label (X-DSEP)
+pub fn c05_pok_relabelled_is_rejected(p1: &ProofOfKnowledge, p2: &ProofOfKnowledge, pk: PublicKey, msg: &[u8], y: ProofCommitmentChallenge)
+    requires
+        pok_u(*p1) == pok_u(*p2), pok_v(*p1) == pok_v(*p2), pok_scheme(*p1) != pok_scheme(*p2),
+        hp(msg@, scheme_dst(pok_scheme(*p1))) != hp(msg@, scheme_dst(pok_scheme(*p2))),        // X-DSEP
+{
+    let v1 = p1.verify(pk, msg, y);
+    let v2 = p2.verify(pk, msg, y);
+    proof {
+        let d1 = scheme_dst(pok_scheme(*p1));
+        let d2 = scheme_dst(pok_scheme(*p2));
+        lemma_pok_eq_iff2(pok_u(*p1), pok_v(*p1), pk.0, y.0, msg@, d1);
+        lemma_pok_eq_iff2(pok_u(*p2), pok_v(*p2), pk.0, y.0, msg@, d2);
+        if v1 is Ok && v2 is Ok {
+            lemma_pok_two_tags(pok_v(*p1).dl(), pok_u(*p1).dl(), hp(msg@, d1).dl(), hp(msg@, d2).dl(), y.0.val(), pk.0.dl());
+        }
+    }
+    assert(!(v1 is Ok && v2 is Ok));
+}
